@@ -278,6 +278,15 @@ pub fn case_env(sc: &Scenario) -> String {
     }
     let mut creators: Vec<String> = sc.users.clone();
     creators.extend(classic.iter().map(|x| x.1.clone()));
+    // every address at which scripted code actually ran in the run just observed (a contract created with a salt
+    // that itself instantiates with a salt): the derivation of the book entries stays independent of cw-multi-test
+    crate::contract::RAN_AT.with(|r| {
+        for a in r.borrow().iter() {
+            if !creators.contains(a) {
+                creators.push(a.clone());
+            }
+        }
+    });
     let mut salted: Vec<((B, String, B), String)> = vec![];
     for _round in 0..2 {
         let mut fresh = vec![];
